@@ -25,7 +25,7 @@ def _call(args):
     modname, fname, case = args
     mod = importlib.import_module(modname)
     fn = getattr(mod, fname)
-    limit = int(os.environ.get("MC_CASE_TIMEOUT", "0") or getattr(mod, "CASE_TIMEOUT", 900))
+    limit = int(os.environ.get("MC_CASE_TIMEOUT") or getattr(mod, "CASE_TIMEOUT", 900))
     try:
         return case, _with_alarm(fn, case, limit)
     except CaseTimeout:
@@ -362,7 +362,9 @@ class Ctx:
         if self.harness_errors:
             for case, msg in self.harness_errors[:5]:
                 print(f"HARNESS-ERROR property={self.pid} {msg[:2000]} case={case!r:.500}")
-            return 2
+            # a confirmed violation outranks harness complaints (typically vacuity guards that
+            # starve because the violating cases were cut short)
+            return 1 if nviol else 2
         return 1 if nviol else 0
 
     def write_replay(self, sig, ent):
